@@ -86,6 +86,7 @@ def run(ctx) -> None:
   ctx.rule('R6', 'clients.Trial.parameters uses StudyConfig.trial_parameters', 1)
   ctx.rule('R8', 'a declared external type is always written to the study spec (guarded by `is not None` only)', 1)
   r8_external_type_transmitted(ctx)
+  ctx.import_rules('C16', {'R8'}, 'R9', 'every subspace owns its child config objects (a child shared between parent values is active for one of them only)')
   ctx.import_rules('C09', {'R8', 'R5'}, 'R7', 'the study config the client casts with is the one that was stored: conditional children survive the wire one by one')
   trial_mod = ctx.index.need_module('vizier._src.pyvizier.shared.trial')
   pcm = ctx.index.need_module('vizier._src.pyvizier.shared.parameter_config')
